@@ -44,13 +44,17 @@ def corrupt_arith(ev, rng):
         ev["out"] = ev["out"] + 1
         ev["_corrupted"] = "norm.out"
         return ev
-    if k in ("simplebitpack", "bitpack", "hintpack") and ev.get("out"):
+    if k in ("simplebitpack", "bitpack", "hintpack", "sigencode") and ev.get("out"):
         ev["out"] = _flip_hex(ev["out"], rng)
         ev["_corrupted"] = k + ".out"
         return ev
-    if k == "hintunpack":
+    if k == "hintunpack" or (k == "sigdecode" and not ev["ok"]):
         ev["ok"] = not ev["ok"]
-        ev["_corrupted"] = "hintunpack.ok"
+        ev["_corrupted"] = k + ".ok"
+        return ev
+    if k in ("pkdecode", "skdecode"):
+        ev["tr"] = _flip_hex(ev["tr"], rng)
+        ev["_corrupted"] = k + ".tr"
         return ev
     return None
 
@@ -146,10 +150,14 @@ def _run_drivers(ctx, drv):
             outs[name] = out
             ctx.log("driver %s: %s" % (name, msg))
     arith = os.path.join(ctx.scratch, "c10.arith.ndjson")
+    lines = []
+    for name in ["poly", "binary"] + ["scalar%d" % i for i in range(sparts)]:
+        lines += [x for x in open(outs[name]).read().splitlines() if x]
+    # events are independent; a seeded shuffle gives every contiguous shard the same mix of cheap and expensive ones
+    import random
+    random.Random(ctx.seed).shuffle(lines)
     with open(arith, "w") as f:
-        # poly/binary first, then the (long) scalar tables; shards are contiguous slices
-        for name in ["poly", "binary"] + ["scalar%d" % i for i in range(sparts)]:
-            f.write(open(outs[name]).read())
+        f.write("\n".join(lines) + "\n")
     return arith, outs["algo"]
 
 
